@@ -10,10 +10,11 @@ from .. import core, fm, km, mc, ref
 from ..core import Failure
 from .. import graphs
 
-NAMINGS = ['str', 'revint', 'tuple', 'mixed', 'strcollide']
+NAMINGS = ['str', 'revint', 'tuple', 'mixed', 'strcollide', 'strlen']
 CONTAINERS = ['list', 'set', 'tuple']
 ATOM_MAPS = [{'p': 'alpha_long_name', 'q': 'Zq'}, {'p': 'q', 'q': 'p'}, {'p': 'a b', 'q': 'x-1'},
-             {'p': 'pp', 'q': 'p_'}, {'p': 'fairness', 'q': 'E'}]
+             {'p': 'pp', 'q': 'p_'}, {'p': 'fairness', 'q': 'E'}, {'p': 'q', 'q': 'qq'},
+             {'p': 'p', 'q': 'p0'}, {'p': 'z', 'q': 'a'}, {'p': '[E(X(q))]', 'q': 'q'}]
 
 
 def top(checker, f):
@@ -162,7 +163,7 @@ def make_corpus(seed_value, n):
         hs.tuples(hs.just('CTLS'), fm.st_formula('ctls_state', atoms, max_depth=3, max_temporal=2)),
         hs.tuples(hs.just('CTL'), fm.st_formula('ctl', atoms, max_depth=3)),
     )
-    both = hs.tuples(km.st_kripke(1, 4, atoms), strat, hs.sampled_from(['str', 'mixed', 'tuple', 'strcollide']),
+    both = hs.tuples(km.st_kripke(1, 4, atoms), strat, hs.sampled_from(['str', 'mixed', 'tuple', 'strcollide', 'strlen']),
                      hs.integers(0, 5))
 
     def body(c):
@@ -187,9 +188,10 @@ def random_shard(st, shard, nshards, payload):
 
     @hs.composite
     def cases(draw):
-        K = draw(km.st_kripke(1, 4))
+        checker = draw(hs.sampled_from(['CTL', 'CTL', 'LTL', 'CTLS']))
+        # the CTL checker is cheap: larger structures there (order effects need room)
+        K = draw(km.st_kripke(1, 7 if checker == 'CTL' else 4))
         n = K['n']
-        checker = draw(hs.sampled_from(['CTL', 'LTL', 'CTLS']))
         f = draw({'CTL': fm.st_formula('ctl', max_depth=3),
                   'LTL': fm.st_formula('ltl_path', max_depth=3, max_temporal=2),
                   'CTLS': fm.st_formula('ctls_state', max_depth=3, max_temporal=2)}[checker])
@@ -242,7 +244,7 @@ def run(ctx):
     if f is not None:
         ctx.violation(f)
         return
-    seeds = ctx.pick([0, 1, 2, 3], list(range(16)))
+    seeds = ctx.pick([0, 1, 2, 3, 7, 11, 101, 4242], list(range(16)) + [101, 4242, 65535, 123456789])
     corpus = make_corpus(ctx.seed * 1000 + 77, ctx.pick(300, 1200))
     ctx.scopes = ['%d transformation cases' % (shards * n),
                   '%d-case corpus x PYTHONHASHSEED in %s' % (len(corpus), seeds)]
